@@ -434,10 +434,14 @@ class Association(threading.Thread):
         ab_syntax = UID(ab_syntax)
         tr_syntax = UID(tr_syntax)
 
-        try:
-            possible_contexts = [self._accepted_cx[context_id]]  # type: ignore
-        except KeyError:
+        if context_id is None:
             possible_contexts = self.accepted_contexts
+        else:
+            # Only the context the message was received on may be used
+            try:
+                possible_contexts = [self._accepted_cx[context_id]]
+            except KeyError:
+                possible_contexts = []
 
         # Filter by abstract syntax
         possible_contexts = [
